@@ -263,7 +263,7 @@ impl Prop for C06 {
     }
     fn rule(&self) -> &'static str {
         "(a) ProgGen programs (terminating, with output, optional input, origins incl. none) through the real binary: `lace compile` must exit 0 and write exactly 2(n+1) bytes = big-endian origin (0x3000 without .orig) ++ RefAsm's words; `lace run prog.lc3` and `lace run prog.asm` (same flags, same stdin) must give the same exit status and the same stdout modulo the `target <name>` banner lines, and both must equal RefVM (exit status, banner lines, program output character for character). \
-         (b) byte strings offered as .lc3 / .obj: empty, 1 byte, odd lengths, origin only (incl. 0xFFFF, 0xFE00), images ending exactly at / one or two below / above 0x10000, ordinary images, 65,000-65,540-word images: accepted <=> even length >= 2 and origin + n + 1 <= 0x10000; accepted files behave as RefVM says; rejected ones exit non-zero with a status other than 101, no signal, no panic message, and are not run. \
+         (b) byte strings offered as .lc3 / .obj: empty, 1 byte, odd lengths, origin only (incl. 0xFFFF, 0xFE00), images ending exactly at / one or two below / above 0x10000, ordinary images, 65,000-65,540-word images, and an enumerated grid of file sizes 131,070..262,145 bytes x origins {0,1,2,0x3000}: accepted <=> even length >= 2 and origin + n + 1 <= 0x10000; accepted files behave as RefVM says; rejected ones exit non-zero with a status other than 101, no signal, no panic message, and are not run. \
          Non-trivial: the program prints and has a label or a non-default / absent origin; or the file is within 2 words of a loader limit, odd or tiny. Distinct = hash(file bytes / source + input)."
     }
     fn assumptions(&self) -> Vec<String> {
@@ -287,6 +287,31 @@ impl Prop for C06 {
         });
         let n = ctx.share(ctx.tier.pick(700, 8000));
         drive(ctx, rep, "files", file_cases(), n, &mut |c: &Case| judge_case(c));
+        // deterministic: files at and just above the largest loadable size (0x10000 words incl. the
+        // origin word = 131,072 bytes), for the origins at which that size is / is not loadable
+        let mut k = 0u64;
+        for len in [131_070usize, 131_071, 131_072, 131_073, 131_074, 131_076, 131_080, 140_000, 196_608, 262_144, 262_145] {
+            for orig in [0u16, 1, 2, 0x3000] {
+                for obj_ext in [false, true] {
+                    k += 1;
+                    if !ctx.mine(k) || (obj_ext && len > 131_080) {
+                        continue;
+                    }
+                    let mut bytes = orig.to_be_bytes().to_vec();
+                    while bytes.len() + 1 < len {
+                        bytes.extend([0xF0u8, 0x25]);
+                    }
+                    if bytes.len() < len {
+                        bytes.push(0xF0);
+                    }
+                    judge_one(ctx, rep, &Case::File { bytes, obj_ext }, &mut |c| {
+                        let mut o = judge_case(c);
+                        o.label("file-around-128KiB");
+                        o
+                    });
+                }
+            }
+        }
     }
     fn replay(&self, _ctx: &Ctx, case: &Value) -> Obs {
         match serde_json::from_value::<Case>(case.clone()) {
